@@ -29,6 +29,7 @@ type Contract struct {
 	Props          []string
 	Requires       []*Clause
 	Ensures        []*Clause
+	Names          []*Clause
 	Invariants     map[int][]*Clause
 	Iterations     map[int][]*Clause
 	Decreases      *Clause
@@ -85,7 +86,7 @@ type TypeInv struct {
 	Clause   *Clause
 }
 
-var clauseKeywords = map[string]bool{"iteration": true, "requires": true, "ensures": true, "invariant": true, "decreases": true, "property": true,
+var clauseKeywords = map[string]bool{"names": true, "iteration": true, "requires": true, "ensures": true, "invariant": true, "decreases": true, "property": true,
 	"pure": true, "assigns": true, "trusted": true, "noinline": true, "inline": true, "func": true, "sweep": true, "immutable": true, "spec": true,
 	"axiom": true, "flagset": true, "safeonly": true, "immutable-family": true, "method-pre": true, "entry": true, "type-invariant": true, "elems-nonnil": true, "callback-parametric": true}
 
@@ -259,6 +260,17 @@ func (w *World) parseContractFile(cs *ContractSet, file string) error {
 					}
 				}
 			}
+		case "names":
+			// names <expr>: a definitional postcondition (gives a ghost name to the result); assumed at call sites,
+			// not an obligation of the body
+			if cur == nil {
+				return fmt.Errorf("%s:%d: clause outside func", file, rl.line)
+			}
+			c, err := mk("names", rest)
+			if err != nil {
+				return err
+			}
+			cur.Names = append(cur.Names, c)
 		case "requires", "ensures", "decreases":
 			if cur == nil {
 				return fmt.Errorf("%s:%d: clause outside func", file, rl.line)
